@@ -7,6 +7,7 @@ RULES = {
     "P2b": rules_state.rule_P2b,
     "M1": rules_state.rule_M1,
     "Y1": rules_state.rule_Y1,
+    "M2": rules_state.rule_M2,
     "N1": rules_arith.rule_N1,
     "N2": rules_arith.rule_N2,
     "E1": rules_except.rule_E1,
@@ -124,7 +125,7 @@ PROPS = {
     "C06": {
         "id": "C06",
         "title": "Streaming processors are invariant to how the stream is framed",
-        "rules": ["H1", "V1", "P2", "P3", "P3b", "S2"],
+        "rules": ["H1", "V1", "P2", "P3", "P3b", "S2", "M2"],
         "clause": "structural necessary conditions of framing invariance: every array-valued state member a process() method rewrites "
                   "(delay line, history, overlap tail) receives a value that depends on its previous contents and on the input frame, "
                   "and the returned frame depends on the input and on that state (a history longer than the frame survives; no call "
@@ -144,7 +145,7 @@ PROPS = {
     "C08": {
         "id": "C08",
         "title": "Multirate converters equal the zero-stuff/filter/decimate definition",
-        "rules": ["R1", "H1", "S2", "R2", "N4", "N5", "N6", "P2", "M1", "Y1"],
+        "rules": ["R1", "H1", "S2", "R2", "N4", "N5", "N6", "P2", "M1", "Y1", "M2"],
         "clause": "the documented rejections and the identity case: FIRDecimator and FIRRateConverter reject (by a live throwing check "
                   "on every path to a normal return) frames whose length is not a multiple of the decimation factor; resample returns "
                   "its input unchanged when the reduced ratio is 1; a rejected frame leaves the converter untouched (no member is written on "
@@ -177,7 +178,7 @@ PROPS = {
     "C10": {
         "id": "C10",
         "title": "Transform results do not depend on call history; plan caching is transparent",
-        "rules": ["K1", "K2", "K3", "P1", "P2", "M1"],
+        "rules": ["K1", "K2", "K3", "P1", "P2", "M1", "M2"],
         "clause": "cached plans are immutable (const operations write no object state) and are built deterministically from their "
                   "key (no mutable shared statics); lookup, creation and insertion use the same unmodified key and the inserted "
                   "value is the plan built for it; plans are handed out and held by shared ownership, so an evicted plan stays "
@@ -204,7 +205,7 @@ PROPS = {
     "C12": {
         "id": "C12",
         "title": "Adaptive filters report a-priori errors, honour the lock, and converge",
-        "rules": ["L1", "G2", "S2", "R2", "N5", "N6"],
+        "rules": ["L1", "G2", "S2", "R2", "N5", "N6", "M2"],
         "clause": "with the lock set no path of LmsFilter/RlsFilter::process writes the coefficient vector (or the RLS inverse "
                   "correlation); the flag is written only by set_lock_coeffs; y[k] is computed from the pre-update coefficients and "
                   "e[k] is formed from d and that y before the update; the x/d length guard dominates all indexing",
@@ -216,7 +217,7 @@ PROPS = {
     "C14": {
         "id": "C14",
         "title": "Analytic-signal and frequency-translation tools follow their definitions",
-        "rules": ["N1", "N3", "V1", "S2", "R2", "N5", "N6", "H1"],
+        "rules": ["N1", "N3", "V1", "S2", "R2", "N5", "N6", "H1", "M2"],
         "clause": "the tuner's admissible-frequency test (and every other division of the anchored files) is carried out in real "
                   "arithmetic: every f with |f| <= fs/2 is accepted, also for odd sample rates",
         "not_decided": "hilbert/HilbertFilter numerics and the phase accumulator arithmetic",
@@ -236,7 +237,7 @@ PROPS = {
     "C20": {
         "id": "C20",
         "title": "Dynamics processors never amplify, follow their static curves, and settle",
-        "rules": ["N1", "L2", "H1", "S2", "R2", "N5", "N6"],
+        "rules": ["N1", "L2", "H1", "S2", "R2", "N5", "N6", "M2"],
         "clause": "the static gain computers and their range checks contain no integer-truncated division (slope 1/ratio is real); "
                   "the AGC's max_gain clamp lies on every path between a gain update and its use; the smoothing state of "
                   "compressor, limiter and noise gate is carried into the output and no data-dependent shortcut bypasses its update",
